@@ -92,13 +92,16 @@ pub struct ThreadOut {
     pub viol: Option<Viol>,
     pub outputs: Vec<(String, Option<String>)>,
     pub noise_between_p: u64,
+    /// `output` declarations refused as not portable (the CLI exits 1 on those)
+    #[serde(default)]
+    pub output_errors: u32,
 }
 
 fn run_thread(plan: ThreadPlan, inputs_json: String, y: &Yielder) -> ThreadOut {
     install_hooks();
     let yh = y.clone_handle();
     set_yielder(Some(Box::new(move || yh.yield_now())));
-    let mut out = ThreadOut { items: vec![], viol: None, outputs: vec![], noise_between_p: 0 };
+    let mut out = ThreadOut { items: vec![], viol: None, outputs: vec![], noise_between_p: 0, output_errors: 0 };
     for items in plan.sessions {
         let sess = Session::new(Some(&inputs_json));
         // clause 4 bookkeeping: value of each P name when it was bound
@@ -179,6 +182,7 @@ fn run_thread(plan: ThreadPlan, inputs_json: String, y: &Yielder) -> ThreadOut {
         }
         if seen_p {
             out.outputs = sess.outputs.borrow().iter().map(|(k, v)| (k.clone(), v.clone())).collect();
+            out.output_errors = sess.output_errors.get();
         }
     }
     set_yielder(None);
@@ -841,16 +845,37 @@ pub fn gen_envs(rng: &mut Rng, program: &[Stmt], inputs_json: &str) -> Vec<Scena
     envs
 }
 
+/// The inputs document of a program: plain data, edge values, and function-valued members
+/// (`{"__blots_function": source}`) whose source is well-formed, truncated, written in another
+/// language's syntax, not a function, or deeply nested - the conversion of inputs is code that
+/// runs before the program and shares the process with every other evaluation.
+pub fn gen_inputs(rng: &mut Rng) -> String {
+    let f = |src: &str| format!("{{\"__blots_function\": {}}}", serde_json::Value::String(src.to_string()));
+    match rng.below(8) {
+        0 | 1 => "{}".to_string(),
+        2 => "{\"k\": 3, \"xs\": [1, 2, 3]}".to_string(),
+        3 => "{\"k\": \"s\", \"m\": {\"k\": 1}}".to_string(),
+        4 => format!("{{\"k\": 3, \"fin\": {}, \"fs\": [{}, 2]}}", f("(x) => x + 1"), f("(a, b?) => [a, b]")),
+        5 => {
+            let bad = *rng.pick(&["(x) => ", "function (x) { return x + 1; }", "x => {", "", "1 + 1", "(x) => x +", "lambda x: x", "(x) => (x", "=> 3", "(x) => x where"]);
+            format!("{{\"k\": 3, \"fin\": {}}}", f(bad))
+        }
+        6 => {
+            let depth = rng.range(30, 120) as usize;
+            let nested = format!("(x) => {}x{}", "(".repeat(depth), ")".repeat(depth));
+            let unbalanced = format!("(x) => {}x", "[".repeat(depth));
+            format!("{{\"k\": 3, \"fin\": {}, \"gin\": {}}}", f(&nested), f(&unbalanced))
+        }
+        _ => "{\"k\": null, \"xs\": [], \"big\": 9007199254740993, \"tiny\": 1e-320, \"neg\": -0.0, \"s\": \"\u{00fc} \\\"q\\\"\", \"deep\": {\"a\": {\"b\": {\"c\": [1, {\"d\": null}]}}}}".to_string(),
+    }
+}
+
 pub fn gen_program(rng: &mut Rng) -> (Vec<Stmt>, Vec<String>, String) {
     let n = rng.range(3, 12) as usize;
     let mut r2 = rng.fork();
     let mut g = PGen::new(&mut r2, "p");
     let prog = g.program(n, true);
-    let inputs = match rng.below(3) {
-        0 => "{}".to_string(),
-        1 => "{\"k\": 3, \"xs\": [1, 2, 3]}".to_string(),
-        _ => "{\"k\": \"s\", \"m\": {\"k\": 1}}".to_string(),
-    };
+    let inputs = gen_inputs(rng);
     let (stmts, kinds): (Vec<Stmt>, Vec<String>) = prog.into_iter().unzip();
     (stmts, kinds, inputs)
 }
